@@ -147,10 +147,15 @@ def _get_resp_headers(sock, success_statuses: tuple = SUCCESS_STATUSES) -> tuple
     status, resp_headers, status_message = read_headers(sock)
     if status not in success_statuses:
         content_len = resp_headers.get("content-length")
-        if content_len:
-            response_body = sock.recv(
-                int(content_len)
-            )  # read the body of the HTTP error message response and include it in the exception
+        try:
+            body_len = int(content_len) if content_len else 0
+        except ValueError:
+            body_len = 0
+        if body_len > 0:
+            # read (the beginning of) the body of the HTTP error message
+            # response and include it in the exception; never let the
+            # declared length size the read
+            response_body = sock.recv(min(body_len, 16384))
         else:
             response_body = None
         raise WebSocketBadStatusException(
